@@ -193,7 +193,11 @@ __CPROVER_requires(g_rr.idm_has && OBJ_OK(g_rr.idm_val, struct rep0_pipe) && DIS
     )
 #endif
 __CPROVER_requires(g_pollr_addr == &SOCK->readable && g_pollw_addr == &SOCK->writable)
-__CPROVER_assigns(aio->a_msg, aio->a_result, aio->a_count, CTX->btrace_len, CTX->pipe_id, CTX->saio, CTX->spipe, CTX->sqnode, VP_PROTO_GHOST_LIST, VP_RR_GHOST_LIST, VP_SYNC_GHOSTS, g_free_calls)
+#if REP_HAS == 1
+/* (repx) state invariant, C15: while a pipe is busy the socket does not advertise it as the free reply path of its own context */
+__CPROVER_requires((SPIPE->busy && SOCK->ctx.pipe_id == SPIPE->id) ==> !g_pollw)
+#endif
+__CPROVER_assigns(aio->a_msg, aio->a_result, aio->a_count, CTX->btrace_len, CTX->pipe_id, CTX->saio, CTX->spipe, CTX->sqnode, VP_PROTO_GHOST_LIST, VP_RR_GHOST_LIST, VP_REPX_GHOST_LIST, VP_SYNC_GHOSTS, g_free_calls)
 __CPROVER_assigns(*SM)
 #if REP_HAS == 1
 __CPROVER_assigns(SPIPE->busy, SPIPE->aio_send.a_msg, SPIPE->sendq.ll_head)
@@ -242,7 +246,12 @@ __CPROVER_ensures((S_WAIT && !g_aio_start_ok) ==> (CTX->saio == NULL && NODE_IDL
     LIST_IS_ONE(&SPIPE->sendq, &C2->sqnode)
 #endif
     ))
+/* (repx) C15: the invariant is kept: a reply of ANY context that makes the pipe busy takes away the socket's
+ * "can send" indication when the socket's own context holds a request of that same pipe */
+__CPROVER_ensures((SPIPE->busy && SOCK->ctx.pipe_id == SPIPE->id) ==> !g_pollw)
 #endif
+/* (repx) C02: exactly one completion of this aio on every path that completes here, none of any other aio */
+__CPROVER_ensures(WA_NONE_IF(g_wa != (void *) aio))
 ;
 
 /* ---- rep0_ctx_recv (C04): captures the backtrace and the origin pipe of the request it delivers;
